@@ -299,6 +299,19 @@ def quant_cases(sh, rng, n):
             if rng.random() < 0.3:
                 f = rng.choice([m.Not(f), m.And(f, rng.choice(atoms)), m.Or(rng.choice(atoms), f)])
         out.append(("quant", f))
+    # quantifier ALTERNATIONS over two variables of one sort with a body relating them (forall/exists must not be
+    # merged or swapped): every (Q1, Q2) combination in both variable orders, directly nested and through a connective
+    rel = [(qb, p, [m.Iff(qb, p), m.Xor(qb, p), m.Implies(qb, p), m.Or(qb, m.Not(p))]),
+           (qi, x, [m.Equals(qi, x), m.LE(qi, x), m.LT(x, qi), m.Equals(m.Plus(qi, m.Int(1)), x)]),
+           (qv, b2, [m.Equals(qv, b2), m.BVULT(qv, b2), m.Equals(m.BVNot(qv), b2)])]
+    for v1, v2, bodies in rel:
+        for body in bodies:
+            for q1 in (m.ForAll, m.Exists):
+                for q2 in (m.ForAll, m.Exists):
+                    for a, b in ((v1, v2), (v2, v1)):
+                        out.append(("quant-alt", q1([a], q2([b], body))))
+                    out.append(("quant-alt", q1([v1], m.Or(q2([v2], body), m.FALSE()))))
+                    out.append(("quant-alt", q1([v1], m.Not(q2([v2], m.Not(body))))))
     return out
 
 
